@@ -157,6 +157,10 @@ func C17(tier rt.Tier) int {
 	if tier == rt.Thorough {
 		maxKeys, permCap = 4, 4
 	}
+	if rt.SubRun {
+		// BatchSize = 2: a donor of more than two nodes crosses the batching threshold of the store layer
+		permCap = 2
+	}
 	// contents: every subset of <= maxKeys paths
 	var contentsList [][]string
 	var rec func(start int, cur []string)
@@ -413,6 +417,40 @@ func C17(tier rt.Tier) int {
 										}
 									}
 								}
+								// 3a. store-level repair: the donor store merged into a copy of the damaged store with MergeState
+								{
+									sdb := util.NewMemoryNodeDB()
+									_ = db.Iterate(context.Background(), func(ctx context.Context, key util.Key, node util.Node) error { return sdb.PutNode(key, node) })
+									before := donor.fingerprint()
+									if err := util.MergeState(context.Background(), donor, sdb); err != nil {
+										violate("mergestate", desc+": MergeState returned "+err.Error(), replay)
+										return
+									}
+									fail := ""
+									if after := donor.fingerprint(); after != before {
+										fail = "MergeState changed the donor store's node objects: " + lineDiff(strings.ReplaceAll(before, ";", "\n"), strings.ReplaceAll(after, ";", "\n"))
+									}
+									if fail == "" {
+										_ = sdb.Iterate(context.Background(), func(ctx context.Context, key util.Key, node util.Node) error {
+											if fail == "" && !bytes.Equal(node.GetHashBytes(), key) {
+												fail = fmt.Sprintf("after MergeState the store holds under key %x a node hashing to %x", []byte(key), node.GetHashBytes())
+											}
+											return nil
+										})
+									}
+									if fail == "" {
+										ts := util.NewMerklePatriciaTrie(sdb, util.Sequence(tver), root, statecache.NewEmpty())
+										if has, err := ts.HasMissingNodes(context.Background()); err != nil || has {
+											fail = fmt.Sprintf("after MergeState a fresh trie on the store still reports missing nodes (%v, %v)", has, err)
+										} else if f := viewOf(util.NewMerklePatriciaTrie(sdb, util.Sequence(tver), root, statecache.NewEmpty()), mdl, paths); f != "" {
+											fail = "after MergeState: " + f
+										}
+									}
+									if fail != "" {
+										violate("mergestate:"+fail[:min(len(fail), 30)], desc+": "+fail, replay)
+										return
+									}
+								}
 								// 3. repair
 								atomic.AddInt64(&repairs, 1)
 								before := donor.fingerprint()
@@ -460,9 +498,10 @@ func C17(tier rt.Tier) int {
 	rep.Set("distinct_nontrivial", int(cases))
 	rep.Set("lookups_judged", int(lookups))
 	rep.Set("repairs_judged", int(repairs))
-	rep.Set("rule", fmt.Sprintf("every content of <= %d of the paths %q (prefix pairs, interior values, prefix-free 4-char paths) x EVERY subset of its reachable non-root nodes removed from the store (all subsets up to 2^9, else all of size <= 3) x trie version equal to / different from the nodes' origin x every order of the donor store's iteration (all permutations up to %d nodes, rotations+reversals above). Oracle: HasMissingNodes <=> some node absent; GetAllMissingNodes, and the keys a full tolerant Iterate reports to its handler and records in GetMissingNodeKeys, == absent nodes whose ancestors are all present; a lookup that crosses an absent node (per the independent canonical trie) returns an error other than 'value not present', all other lookups answer per model; after MergeDB: no missing node, full content, same root, donor node objects unchanged; a MergeDB interrupted by a store write error (every position) returns the error and the same trie keeps reporting exactly what the store still lacks; a Delete on the damaged trie either fails or yields the canonical root of the remaining content; 'states' = contents, 'transitions' = (content, removal subset, version, order) cases", maxKeys, paths, permCap))
+	rep.Set("rule", fmt.Sprintf("every content of <= %d of the paths %q (prefix pairs, interior values, prefix-free 4-char paths) x EVERY subset of its reachable non-root nodes removed from the store (all subsets up to 2^9, else all of size <= 3) x trie version equal to / different from the nodes' origin x every order of the donor store's iteration (all permutations up to %d nodes, rotations+reversals above). Oracle: HasMissingNodes <=> some node absent; GetAllMissingNodes, and the keys a full tolerant Iterate reports to its handler and records in GetMissingNodeKeys, == absent nodes whose ancestors are all present; a lookup that crosses an absent node (per the independent canonical trie) returns an error other than 'value not present', all other lookups answer per model; after MergeDB, and after MergeState into a copy of the damaged store: no missing node, full content, same root, every store key == hash of its node, donor node objects unchanged; a MergeDB interrupted by a store write error (every position) returns the error and the same trie keeps reporting exactly what the store still lacks; a Delete on the damaged trie either fails or yields the canonical root of the remaining content; 'states' = contents, 'transitions' = (content, removal subset, version, order) cases", maxKeys, paths, permCap))
 	rep.Sample(map[string]any{"content": []string{"aa", "ab", "0a1b"}, "removed": "second-level branch", "trie_version": 5, "order": []int{0}})
-	return rep.Finish()
+	rep.RunVariant()
+	return rep.End()
 }
 
 func popcount(x int) int {
